@@ -111,6 +111,7 @@ func (s *Service) Start(ctx context.Context) error {
 	if s.isFinished.Load() {
 		return ErrServiceReturned
 	}
+	verifYield("srv.Service.Start.checked")
 
 	if s.isRunning.Swap(true) {
 		return ErrServiceAlreadyStarted
@@ -166,6 +167,7 @@ func (s *Service) Start(ctx context.Context) error {
 			defer s.wg.Done()
 			defer close(mainSignal)
 			defer s.isRunning.Store(false)
+			defer verifYield("srv.Service.main.finished")
 			defer s.isFinished.Store(true)
 			if s.Cleanup != nil {
 				cleanup := s.Cleanup
@@ -181,6 +183,7 @@ func (s *Service) Start(ctx context.Context) error {
 			defer s.cancel()
 			ec.Add(s.Run(ctx))
 		}()
+		verifYield("srv.Service.Start.launched")
 	})
 
 	return nil
